@@ -20,7 +20,8 @@ type ROp struct {
 	Batch     int      `json:"batch,omitempty"`
 }
 
-var ReadKinds = []string{"first", "take_struct", "find_all", "find_where", "find_pets", "preload", "find_in_batches", "rows_scan", "count", "pluck", "joins", "assoc_find", "assoc_count"}
+var ReadKinds = []string{"first", "take_struct", "find_all", "find_where", "find_pets", "preload", "find_in_batches", "rows_scan", "count", "pluck", "joins", "assoc_find", "assoc_count",
+	"first_or_init", "first_or_create", "raw_scan", "exec_raw", "row", "last", "preload_cond", "joins_preload"}
 
 var preloadPaths = []string{"Company", "Manager", "Account", "Pets", "Pets.Toy", "Toys", "Team", "Languages", "Friends", "Friends.Pets", "Manager.Company", "Team.Account", clause.Associations}
 
@@ -97,6 +98,30 @@ func (op *ROp) Exec(db *gorm.DB) (res Result) {
 	case "joins":
 		var us []fam.User
 		return done(db.Joins("Company").Joins("Manager").Find(&us), &us)
+	case "first_or_init":
+		var u fam.User
+		return done(db.Where(fam.User{Name: fmt.Sprintf("foi%d", op.Int)}).Attrs(fam.User{Age: 5}).FirstOrInit(&u), &u)
+	case "first_or_create":
+		var u fam.User
+		return done(db.Where(fam.User{Name: fmt.Sprintf("foc%d", op.Int)}).Attrs(fam.User{Age: 6}).FirstOrCreate(&u), &u)
+	case "raw_scan":
+		var us []fam.User
+		return done(db.Raw("SELECT * FROM users WHERE age > ?", op.Int).Scan(&us), &us)
+	case "exec_raw":
+		return done(db.Exec("UPDATE notes SET rank = rank WHERE id = ?", op.Int), nil)
+	case "row":
+		var name string
+		err := db.Model(&fam.User{}).Select("name").Where("id = ?", op.Target).Row().Scan(&name)
+		return Result{Err: err, Value: &name}
+	case "last":
+		var u fam.User
+		return done(db.Last(&u), &u)
+	case "preload_cond":
+		var us []fam.User
+		return done(db.Preload("Pets", "name <> ?", "zz").Preload("Friends", func(tx *gorm.DB) *gorm.DB { return tx.Order("id") }).Preload("Pets.Toy").Find(&us), &us)
+	case "joins_preload":
+		var us []fam.User
+		return done(db.Joins("Company").Joins("Manager").Preload("Manager.Pets").Preload("Team").Find(&us), &us)
 	case "assoc_find":
 		var ps []fam.Pet
 		err := db.Model(&fam.User{ID: op.Target}).Association("Pets").Find(&ps)
